@@ -52,4 +52,17 @@ def afterDeletes (s : Store) (dels : List Hash) : Store :=
 
 def Complete (s : Store) (v : Nat) : Prop := ∀ h, h ∈ s.reach v → h ∈ s.nodes
 
+/-- which version objects are listed under root/current/ and root/merged/.  A superseded version
+    is normally only under merged/, but stays under current/ when its retirement (PUT merged/,
+    DELETE current/, both best-effort) failed half-way. -/
+structure Listing where
+  current : List Nat
+  merged : List Nat
+
+/-- the version objects vacuum removes: the historic versions from root/merged/ and — when the
+    retire-finishing pass is in place (`vacuumFinishesRetire`) — from root/current/ too -/
+def delist (F : Facts) (l : Listing) (historic : List Nat) : Listing :=
+  { current := if F.vacuumFinishesRetire then l.current.filter fun v => !historic.contains v else l.current,
+    merged := l.merged.filter fun v => !historic.contains v }
+
 end S3db.Vacuum
